@@ -19,7 +19,20 @@ TRUSTED_BASE = [
 
 
 def run_check(prop_mod, prop_id, tier, replay=None):
+    payload = None
+    if replay is not None:
+        # a replay re-runs the check exactly as the reporting run did (same seed, tier and effort: generation is a function
+        # of them) and looks for the same violation again on the current tree
+        payload = json.load(open(replay))
+        info = payload.get("_run") or {}
+        if "seed" in info:
+            os.environ["VERIF_SEED"] = str(info["seed"])
+        tier = info.get("tier", tier)
     ctx = Ctx(prop_id, tier)
+    if payload is not None and "scale" in (payload.get("_run") or {}):
+        ctx.scale = payload["_run"]["scale"]
+    ctx.replay_of = payload
+    ctx.replay_path = replay
     rc = 1
     if replay is None:
         # replays of earlier runs of this property would only mislead; this run writes its own
@@ -30,7 +43,7 @@ def run_check(prop_mod, prop_id, tier, replay=None):
             except OSError:
                 pass
     try:
-        rc = _run(ctx, prop_mod, replay)
+        rc = _run(ctx, prop_mod, None)
     finally:
         ctx.cleanup()
     return rc
@@ -97,6 +110,25 @@ def _run(ctx, prop_mod, replay):
     # 3. verdict
     known = core.load_known()
     reported = 0
+    if getattr(ctx, "replay_of", None) is not None:
+        want = ctx.replay_of
+        hit = None
+        if "what" in want and want.get("kind") == "no-failing-input-found" and "name" not in want:
+            for what, detail in broken:
+                if what == want["what"]:
+                    hit = {"why": what}
+        else:
+            for v in ctx.violations:
+                if v.get("name") == want.get("name"):
+                    hit = v
+        if hit is not None:
+            tail = " no-failing-input-found" if want.get("kind") == "no-failing-input-found" else ""
+            print("replay: reproduced on the current tree: %s" % str(hit.get("why", ""))[:400])
+            print("VIOLATION property=%s replay=%s%s" % (prop_id, ctx.replay_path, tail))
+            return 1
+        others = len(ctx.violations) + len(broken)
+        print("replay: %s is not reproduced on the current tree (%d other violation(s) in this run)" % (want.get("name", want.get("what", "?")), others))
+        return 0
     for what, detail in broken:
         _nofail(ctx, what, detail)
         reported += 1
